@@ -338,6 +338,7 @@ def option_value_table(prog, chk):
     quoted_word_typestate(prog, chk, "C20.h")
     descriptor_pairing(prog, chk, "C20.i")
     environment_handover(prog, chk, "C20.j")
+    argv_cursor_bounded(prog, chk, "C20.k")
 
 
 def quoted_word_typestate(prog, chk, rid):
@@ -606,3 +607,32 @@ def environment_handover(prog, chk, rid):
                     chk.bad(rid, f, "environment-array:" + arr, f.where(ex), "; ".join(problems) + ": the child gets a different environment than the map, or exec reads past the array")
                 else:
                     chk.ok(rid, f, "environment array sized, filled, terminated and passed to %s" % f.nodes[ex]["callee"], f.where(ex), "size() + 1, store per string, null store before exec", evals=4)
+
+
+def argv_cursor_bounded(prog, chk, rid):
+    """The argument-vector cursor is stepped past the program name without a test (constructor), so it may already lie behind the end
+    (argc == 0): every read through it needs the ordered test `argv < argvEnd`, an inequality test does not stop it."""
+    chk.rule(rid, "DOM: every read through the argument-vector cursor of Process::Arguments is dominated by `argv < argvEnd` (strict order, "
+                  "whatever the spelling); `!=` is not enough because the cursor can start behind the end", floor=1)
+    fs = [f for f in prog.functions.values() if (f.cls or "").endswith("Process::Arguments") and f.blocks and f.file.endswith("Process.cpp")]
+    if not fs:
+        raise AnalysisBroken("no member of Process::Arguments found in Process.cpp")
+    n = 0
+    for f in fs:
+        for i, nd in enumerate(f.nodes):
+            if nd["k"] != "UnaryOperator" or nd.get("op") != "*" or f.node_pos(i) is None:
+                continue
+            t = q.no_casts(f.r(nd["c"][0])).replace(" ", "")
+            if t not in ("this->argv", "this->argv++", "(this->argv++)", "(this->argv)"):
+                continue
+            n += 1
+            rel = fin.relations(f, f.node_pos(i), render=lambda x: q.no_casts(f.r(x)))
+            if ("this->argv", "<", "this->argvEnd") in rel:
+                chk.ok(rid, f, "read through argv under argv < argvEnd", f.where(i), "dominating order fact", evals=len(rel) + 1)
+            else:
+                chk.bad(rid, f, "argv-read-without-order-test", f.where(i),
+                        "`%s` is read where only %s is known about the cursor: the constructor steps over the program name unconditionally, "
+                        "for an empty argument vector the cursor starts behind argvEnd and an inequality test lets it run on" % (
+                            f.r(i), sorted(r for r in rel if "argv" in r[0] or "argv" in r[2]) or "nothing"), evals=len(rel) + 1)
+    if not n:
+        raise AnalysisBroken("no read through this->argv found in Process::Arguments")
